@@ -285,6 +285,10 @@ func facetDeterm(args []string) error {
 				os.RemoveAll(wf)
 				runGoag(wf, GenSpec{Name: "other", Spec: []byte(otherSpec), Ext: "json", Client: false, DoNotEdit: false, BasePath: "/zz"})
 				os.RemoveAll(wf)
+				// ... and the failing one once more, so that the next compared run is the first thing that
+				// happens after a failure
+				runGoag(wf, GenSpec{Name: "q", Spec: []byte(failingSpec), Ext: "json", Client: true, DoNotEdit: false})
+				os.RemoveAll(wf)
 			}
 		}
 		if outcome == "" {
